@@ -124,6 +124,8 @@ type Session struct {
 	Client *Client
 	h      jsonrpc2.Handler
 	nextID int32
+
+	lastResultID map[string]string
 }
 
 func New() *Session {
